@@ -393,7 +393,9 @@ fn gen_prim(rng: &mut Rng, action: bool, last: bool) -> Value {
         13 => json!({"k": "prim", "prim": *rng.pick(&["-maxdepth", "-mindepth"]), "kind": "test", "okind": "depthnum",
                      "arg": b(pick_bytes(rng, &[b"0", b"1", b"5", b"100"], &[b"-1", b"x", b"1.5", b"+1", b""]))}),
         14 => json!({"k": "prim", "prim": "-newermt", "kind": "test", "okind": "date",
-                     "arg": b(pick_bytes(rng, &[b"jan 01, 2025 00:00:01", b"jan 01, 2025"], &[b"garbage", b"", b"99999"]))}),
+                     "arg": b(pick_bytes(rng, &[b"jan 01, 2025 00:00:01", b"jan 01, 2025"],
+                                         &[b"garbage", b"", b"99999", "jan 01, \u{662}\u{660}\u{662}\u{665}".as_bytes(), "jan \u{661}\u{662}, 2025".as_bytes(), "jan 01, 2025 \u{661}\u{662}:00:00".as_bytes(),
+                                           b"jan 01, 99999", b"feb 30, 2025", b"jan 01, 2025 25:61:61"]))}),
         _ => json!({"k": "prim", "prim": "-name", "kind": "test", "okind": "any", "arg": b(rng.pick(&JUNK).to_vec())}),
     }
 }
